@@ -148,6 +148,12 @@ def dpop (s : List Chunk) (start length : Nat) : Option (List UInt8) × List Chu
 /-- `DataSpans.len()` -/
 def dlen (s : List Chunk) : Nat := (s.map (fun c => c.2.length)).sum
 
+/-- `DataSpans._dump()`: the offset of every byte held, chunk by chunk -/
+def dDump (s : List Chunk) : List Nat := s.flatMap (fun c => List.range' c.1 c.2.length)
+
+/-- `DataSpans.__bool__`: `bool(self.len())` -/
+def dBool (s : List Chunk) : Bool := dlen s != 0
+
 /-- `DataSpans.get_spans()`: `Spans([(start, len(data)) …])`; the constructor `add`s each pair
 (and skips everything when the list is empty/falsy). -/
 def getSpans (s : List Chunk) : List Span :=
